@@ -33,33 +33,40 @@ func checkWorkerWidth(c *core.Ctx, tabs *Tables) {
 		return
 	}
 	for _, w := range []struct{ pkg, name string }{{"pkg/snps", "getSNPs"}, {"pkg/updown", "getLines"}, {"pkg/variants", "getVariants"}} {
-		fn := c.LookupFunc(w.pkg, w.name)
-		key := "T/reference-alignment-width/" + w.name
-		if fn == nil {
-			c.Und(key, 0, "UNRESOLVED anchor %s", w.name)
-			continue
-		}
-		ev := newEval(c)
-		dom := tabs.domain(false)
-		ev.Domain = func(s eval.AbsSeq) []eval.Value { return codeValues(dom) }
-		args := bindWorker(c, fn, eval.Sym("L").Add(eval.K(1)), func(i int, p *types.Var) eval.Value {
-			// offset tables of getVariants: their length is the alignment width
-			if sl, ok := p.Type().Underlying().(*types.Slice); ok {
-				if b, ok := sl.Elem().Underlying().(*types.Basic); ok && b.Kind() == types.Int {
-					return eval.AbsSeq{Name: p.Name(), Len: eval.Sym("L")}
-				}
+		for _, delta := range []int64{1, -1} {
+			fn := c.LookupFunc(w.pkg, w.name)
+			key := "T/reference-alignment-width/" + w.name
+			what := "wider"
+			if delta < 0 {
+				key += "/narrower"
+				what = "narrower"
 			}
-			return nil
-		})
-		if args.errs == nil {
-			c.Und(key, fn.Pos(), "worker has no error channel")
-			continue
+			if fn == nil {
+				c.Und(key, 0, "UNRESOLVED anchor %s", w.name)
+				continue
+			}
+			ev := newEval(c)
+			dom := tabs.domain(false)
+			ev.Domain = func(s eval.AbsSeq) []eval.Value { return codeValues(dom) }
+			args := bindWorker(c, fn, eval.Sym("L").Add(eval.K(delta)), func(i int, p *types.Var) eval.Value {
+				// offset tables of getVariants: their length is the alignment width
+				if sl, ok := p.Type().Underlying().(*types.Slice); ok {
+					if b, ok := sl.Elem().Underlying().(*types.Basic); ok && b.Kind() == types.Int {
+						return eval.AbsSeq{Name: p.Name(), Len: eval.Sym("L")}
+					}
+				}
+				return nil
+			})
+			if args.errs == nil {
+				c.Und(key, fn.Pos(), "worker has no error channel")
+				continue
+			}
+			_, err := ev.CallFunc(fn, args.args...)
+			if err != nil && len(args.errs.Sent) == 0 {
+				c.Und(key, fn.Pos(), "cannot evaluate: %v", err)
+				continue
+			}
+			c.Ob(key, len(args.errs.Sent) >= 1, fn.Pos(), "a record one column %s than the reference is not reported as an error", what)
 		}
-		_, err := ev.CallFunc(fn, args.args...)
-		if err != nil && len(args.errs.Sent) == 0 {
-			c.Und(key, fn.Pos(), "cannot evaluate: %v", err)
-			continue
-		}
-		c.Ob(key, len(args.errs.Sent) >= 1, fn.Pos(), "a record one column wider than the reference is not reported as an error")
 	}
 }
